@@ -22,6 +22,7 @@ BOUNDS = [
     '(d) tick_current_index in [MIN_TICK_INDEX-1, MAX_TICK_INDEX], both directions, per spacing',
 ]
 ASSUMPTIONS = [
+    'builder_dedup (Engine M): <Vec as Extend>::extend = concatenation, <[T]>::sort_by_key = stable ascending sort by the closure key, Vec::dedup_by_key = drop every element whose key equals the last RETAINED element (documented std semantics, modelled; the closures are executed from the MIR); 3+0, 3+1, 3+3 accounts',
     'error conversions replaced by code-preserving stubs; message formatting stubbed',
     'start indexes of tick arrays satisfy Tick::check_is_valid_start_tick (enforced by initialize_tick_array / initialize_dynamic_tick_array)',
     'L2 harnesses (annotation contract): tick_array::get_offset replaced by "any offset in [-1,87]"; justified by the L1 harness c10_a_offset_lemma_* on the real function for the listed spacings',
@@ -33,7 +34,7 @@ OUTSIDE = [
     '(a) ZeroedTickArray == empty array: the type is pub(crate) and only reachable through try_build (not finished)',
     '(a) fixed array searches starting at interior offsets 6..86 leftwards / 0..80 rightwards',
     '(b) three arrays, start_array_index 1, fixed arrays inside a sequence, get_tick(ai, tn) of the returned tick',
-    '(e) SparseSwapTickSequenceBuilder::new/try_build (order / duplication independence, foreign-pool rejection, named-uninitialised arrays): harness written but did not finish within the budget',
+    '(e) SparseSwapTickSequenceBuilder::try_build (selection of the three arrays by start index, foreign-pool rejection, named-uninitialised arrays): Kani harnesses did not finish (Vec<AccountInfo> sort/dedup/drop > 10 GB); only the merge/de-duplication step of ::new is decided (Engine M, std Vec operations modelled from their documentation)',
 ]
 
 
@@ -41,6 +42,8 @@ def run(ctx):
     # Engine M complement (props/mextra.py): at loop level exactly the searched initialised ticks are crossed, each once, in price order (Floyd verification shared with C03)
     from props import mextra, c10m
     ctx.mir()
+    # builder_dedup: SparseSwapTickSequenceBuilder::new from its MIR with std's Vec::extend / sort_by_key / dedup_by_key MODELLED from their documented semantics (3+0, 3+1, 3+3 accounts,
+    #   symbolic keys): no key survives twice wherever the duplicates sit — the order/duplication-independence clause at the merge step (Kani could not: Vec<AccountInfo> sort/dedup > 10 GB)
     # offset_lemma: the floor lemma of tick_offset/get_offset for a SYMBOLIC spacing (the Kani L1 harnesses decide it for eight concrete spacings)
-    ctx.parallel([('offset_lemma', c10m.offset_lemma_task)] + mextra.c10_tasks(), max_procs=8)
+    ctx.parallel([('offset_lemma', c10m.offset_lemma_task)] + c10m.builder_tasks() + mextra.c10_tasks(), max_procs=8)
     ctx.run_kani(['c10.rs'])
